@@ -114,7 +114,13 @@ pub fn reconstruct_disclosure(
 ) -> Result<Disclosure, Error> {
     let digest = base64_hash(algorithm, disclosure);
     let key = if disclosure_array.len() == OBJECT_DISCLOSURE_LEN {
-        Some(disclosure_array[1].as_str().unwrap_or_default().to_string())
+        let key = disclosure_array[1]
+            .as_str()
+            .ok_or(Error::InvalidDisclosureFormat(disclosure.to_string()))?;
+        if key == "_sd" || key == "..." {
+            return Err(Error::InvalidDisclosureKey(key.to_string()));
+        }
+        Some(key.to_string())
     } else {
         None
     };
